@@ -231,6 +231,40 @@ def g_int_ties(F, rng, n):
     return out
 
 
+def decade_midpoints(F, rng, step, per):
+    """float bit patterns spread over EVERY decade of the format (one or more per `step` decades): whatever constant
+    is indexed by the decimal exponent (one table entry per decade / per exponent) gets near-halfway inputs"""
+    kmin = -((-F.etiny * 30103) // 100000)
+    kmax = (F.emax * 30103) // 100000
+    out = []
+    for k in range(kmin, kmax + 1, step):
+        for _ in range(per):
+            x = rng.randrange(10 ** 6, 10 ** 7)                # 1.000000 .. 9.999999
+            num, den = (x * 10 ** k, 10 ** 6) if k >= 0 else (x, 10 ** (6 - k))
+            b = float_below(F, num, den)
+            if 0 < b < F.infbits - 1:
+                out.append(b)
+    return out
+
+
+def g_every_decade(F, rng, step, per):
+    """G12: 17..19-digit truncations (down and up) of midpoints in every decade: short inputs within 1e-17..1e-19
+    (relative) of a rounding boundary, for every decimal exponent the moderate path can see"""
+    out = []
+    for bits in decade_midpoints(F, rng, step, per):
+        M, k = F.midpoint(bits)
+        ds, e10 = exact_decimal(M, k)
+        n = len(ds)
+        for t in (17, 18, 19):
+            if n > t:
+                for d, tag in ((ds[:t], "G12:trunc"), (str(int(ds[:t]) + 1), "G12:truncup")):
+                    i, f, e = rng.choice(forms(d.rstrip("0") or "0", e10 + n - t + len(d) - len(d.rstrip("0") or "0"), rng, nforms=2, long_ok=False))
+                    out.append(mk(F.name, i, f, e, tag))
+        if n > 25:
+            out.append(mk(F.name, ds[:1], ds[1:25], e10 + n - 1, "G12:trunc25"))
+    return out
+
+
 def g_floats_exact(F, rng, n):
     """exactly representable values (the float itself, not the midpoint)"""
     out = []
@@ -527,6 +561,17 @@ def g_moderate(F, rng, tier):
             for dw in (0, 1, -1):
                 add(w + dw, e10 + n - 19, True, "G3:lowdecade-trunc")
                 add(w + dw, e10 + n - 19, False, "G3:lowdecade")
+    # every decade of the format: 17..19-digit prefixes of a midpoint (what a per-decade / per-exponent constant sees)
+    for bits in decade_midpoints(F, rng, 4 if q else 1, 1 if q else 3):
+        M, k = F.midpoint(bits)
+        ds, e10 = exact_decimal(M, k)
+        n = len(ds)
+        for t in (17, 18, 19):
+            if n > t:
+                w = int(ds[:t])
+                for dw in (0, 1):
+                    add(w + dw, e10 + n - t, False, "G3:decade")
+                    add(w + dw, e10 + n - t, True, "G3:decade-trunc")
     ws = [1, 2, 3, 5, 7, 9, 10, U64, U64 - 1, 1 << 63, (1 << 63) - 1, (1 << 63) + 1, 10 ** 19, 10 ** 19 - 1,
           (1 << F.p) - 1, 1 << F.p, (1 << F.p) + 1, (1 << (F.p + 1)) + 1, 1 << 32, (1 << 32) - 1]
     ws += [10 ** k for k in range(1, 20)] + [10 ** k - 1 for k in range(1, 20)]
@@ -756,6 +801,9 @@ def g_bigint(rng, tier):
                 add("small_add", x, [s])
                 add("small_mul", x, [s])
             add("normalize", x + [0] * rng.choice([0, 1, 2]) if n + 2 <= 62 else x)
+            if n + 3 <= 62:
+                add("normalize", x + [0, 0], tag="normalize:2zeros")
+                add("normalize", x + [0, 0, 0], tag="normalize:3zeros")
             add("hi64", x)
             add("bit_length", x)
             y = rand_vec(rng, rng.choice(lens))
